@@ -642,13 +642,15 @@ pub fn explore<S: Sys>(engine: &str, family: &str, config: Json, init: &(dyn Fn(
     let mut depth = 0usize;
     let mut sample_hist: Vec<Vec<u16>> = Vec::new();
     while !frontier.is_empty() && depth < lim.max_depth {
-        let next: Mutex<Vec<Vec<u16>>> = Mutex::new(Vec::new());
+        // states first reached in this level: key -> lexicographically smallest history reaching it
+        // (makes the representative history, and with it samples and fingerprints, independent of
+        // thread timing)
+        let level: Vec<Mutex<std::collections::HashMap<u128, Vec<u16>>>> = (0..64).map(|_| Mutex::new(std::collections::HashMap::new())).collect();
         let cursor = AtomicU64::new(0);
         let nthreads = lim.threads.max(1).min(frontier.len().max(1));
         std::thread::scope(|scope| {
             for _ in 0..nthreads {
                 scope.spawn(|| {
-                    let mut local_next: Vec<Vec<u16>> = Vec::new();
                     loop {
                         let i = cursor.fetch_add(1, Ordering::Relaxed) as usize;
                         if i >= frontier.len() {
@@ -694,24 +696,40 @@ pub fn explore<S: Sys>(engine: &str, family: &str, config: Json, init: &(dyn Fn(
                                 Err(v) => {
                                     let v = mk_violation(v, &h2);
                                     let mut g = violations.lock().unwrap();
-                                    if g.len() < lim.max_violations * 4 {
-                                        g.entry(v.fingerprint.clone()).or_insert(v);
+                                    match g.get(&v.fingerprint) {
+                                        // keep the smallest history per fingerprint
+                                        Some(old) if old.replay.get("history").map(|h| h.to_string()) <= v.replay.get("history").map(|h| h.to_string()) => {}
+                                        _ => {
+                                            if g.len() < lim.max_violations * 4 || g.contains_key(&v.fingerprint) {
+                                                g.insert(v.fingerprint.clone(), v);
+                                            }
+                                        }
                                     }
                                     // a violating state is not expanded further
                                 }
                                 Ok(()) => {
                                     let k = s.key();
-                                    let fresh = seen[(k % 64) as usize].lock().unwrap().insert(k);
-                                    if fresh {
-                                        states.fetch_add(1, Ordering::Relaxed);
-                                        outcomes.lock().unwrap().insert(s.outcome());
-                                        local_next.push(h2);
+                                    if seen[(k % 64) as usize].lock().unwrap().contains(&k) {
+                                        continue;
+                                    }
+                                    let mut g = level[(k % 64) as usize].lock().unwrap();
+                                    match g.get_mut(&k) {
+                                        Some(old) => {
+                                            if h2 < *old {
+                                                *old = h2;
+                                            }
+                                        }
+                                        None => {
+                                            g.insert(k, h2);
+                                            drop(g);
+                                            states.fetch_add(1, Ordering::Relaxed);
+                                            outcomes.lock().unwrap().insert(s.outcome());
+                                        }
                                     }
                                 }
                             }
                         }
                     }
-                    next.lock().unwrap().append(&mut local_next);
                 });
             }
         });
@@ -726,7 +744,15 @@ pub fn explore<S: Sys>(engine: &str, family: &str, config: Json, init: &(dyn Fn(
             ));
             break;
         }
-        let mut nf = next.into_inner().unwrap();
+        let mut nf: Vec<Vec<u16>> = Vec::new();
+        for (shard, m) in level.into_iter().enumerate() {
+            let m = m.into_inner().unwrap();
+            let mut g = seen[shard].lock().unwrap();
+            for (k, h) in m {
+                g.insert(k);
+                nf.push(h);
+            }
+        }
         nf.sort();
         depth += 1;
         if !nf.is_empty() {
